@@ -382,6 +382,7 @@ func ShortDocs() []corpus.Doc {
 		mk("text/xml", "<a> b </a>"), mk("text/xml", "<a b = 'c'/>"),
 		mk(MTStream, "streamed"), mk(MTStream, "hello streaming world, chunk by chunk, piece by piece"),
 		mk(MTFail, "fails in the middle"),
+		mk(MTEarly, "only the head of this document is read by its minifier, the rest is never consumed"),
 		mk("application/javascript", "var x = ;"),
 	}
 }
